@@ -254,3 +254,28 @@ def clade_syntenies(rng, G_nested, nfam, ordered=False, p=0.6):
         for k in syn:
             syn[k].sort(key=hidden.index)
     return syn
+
+
+def deep_super_case(rng, ordered=False, min_obj=5, max_obj=7, max_fam=5, max_sp=4):
+    """Deep labelled cases: 5-7 object leaves on few species (transfers and duplications are likely), sparse families
+    each carried by 1-3 leaves anywhere in the tree (so gains at internal nodes, inheritance over several levels and
+    families skipping a generation really occur), default or tie-biased costs."""
+    ns = rng.choice([2, 2, 3, 3, max_sp])
+    no = rng.randint(min_obj, max_obj)
+    S = RT.random_tree_shape(rng, species_labels(ns))
+    G = RT.random_tree_shape(rng, object_labels(no), kind=rng.choice(["cat", "rand", "rand"]))
+    lm = {g: rng.choice(species_labels(ns)) for g in object_labels(no)}
+    k = rng.randint(2, max_fam)
+    fams = families(k)
+    syn = {g: [] for g in lm}
+    for f in fams:
+        for g in rng.sample(list(lm), rng.randint(1, 3)):
+            syn[g].append(f)
+    hidden = list(fams)
+    rng.shuffle(hidden)
+    for g in syn:
+        if not syn[g]:
+            syn[g].append(rng.choice(fams))
+        syn[g] = sorted(set(syn[g]), key=(hidden.index if ordered else fams.index))
+    c = dict(DEFAULT) if rng.random() < 0.6 else tie_cost(rng)
+    return {"kind": "super", "G": G, "S": S, "leafmap": lm, "syn": syn, "costs": c}
